@@ -4,8 +4,10 @@ import LaunchpadModel.Model.Sg1
 
 Mirrors, per family, `mint_price()` and the payment / fee / payout part of `_execute_mint`
 (`contracts/minters/*/src/contract.rs`, after fix commit e08eaf1) and `execute_mint_sender` of `base-minter`,
-on top of a small bank (`cw-multi-test` bank semantics: a transfer of more than the balance fails, zero-amount
-coins are silently dropped, the attached funds reach the contract before it runs, a failing call commits nothing).
+on top of a small bank (`cw-multi-test` 1.2 bank semantics, which agree with the chain where it matters here: a
+transfer of more than the balance fails; a `Send`/`Burn` whose coins are all zero fails ("Cannot transfer empty coins
+amount"), zero coins inside a longer list are ignored; the attached funds reach the contract before it runs; a failing
+call commits nothing).
 
 Everything C02 is silent about (per-address limits, sale window, supply, whitelist membership, authorisation,
 the acceptance rules of price updates) is an environment-witnessed boolean (`allowed` / `acc`).  Prices, fees,
@@ -36,30 +38,43 @@ def debit (b : Bank) (a : Addr) (d : Denom) (n : Nat) : Option Bank :=
     some { b with bal := fun a' d' => if a' = a ∧ d' = d then b.bal a' d' - n else b.bal a' d' }
   else none
 
-/-- `BankMsg::Send` of one coin -/
+/-- `BankMsg::Send` of one coin; a zero amount is rejected -/
 def send (b : Bank) (src dst : Addr) (c : Coin) : Option Bank :=
-  match b.debit src c.denom c.amount with
-  | none => none
-  | some b' => some (b'.credit dst c.denom c.amount)
+  if c.amount = 0 then none
+  else
+    match b.debit src c.denom c.amount with
+    | none => none
+    | some b' => some (b'.credit dst c.denom c.amount)
 
-/-- `BankMsg::Burn` of one coin -/
+/-- `BankMsg::Burn` of one coin; a zero amount is rejected -/
 def burn (b : Bank) (src : Addr) (c : Coin) : Option Bank :=
-  match b.debit src c.denom c.amount with
-  | none => none
-  | some b' => some { b' with burned := fun d => if d = c.denom then b'.burned d + c.amount else b'.burned d }
+  if c.amount = 0 then none
+  else
+    match b.debit src c.denom c.amount with
+    | none => none
+    | some b' => some { b' with burned := fun d => if d = c.denom then b'.burned d + c.amount else b'.burned d }
 
 /-- test-setup only: create coins (`BankSudo::Mint`) -/
 def fund (b : Bank) (dst : Addr) (c : Coin) : Bank :=
   { b.credit dst c.denom c.amount with
     minted := fun d => if d = c.denom then b.minted d + c.amount else b.minted d }
 
-/-- the funds attached to a call move from the caller to the contract, coin by coin -/
+/-- several coins, one after the other (all-or-nothing) -/
 def sendAll (b : Bank) (src dst : Addr) : List Coin → Option Bank
   | [] => some b
   | c :: cs =>
     match b.send src dst c with
     | none => none
     | some b' => sendAll b' src dst cs
+
+/-- the funds attached to a call move from the caller to the contract before it runs: nothing for an empty list;
+otherwise the zero coins are dropped and at least one coin must remain -/
+def sendFunds (b : Bank) (src dst : Addr) (funds : List Coin) : Option Bank :=
+  match funds with
+  | [] => some b
+  | _ =>
+    let nz := funds.filter fun c => c.amount != 0
+    if nz.isEmpty then none else sendAll b src dst nz
 
 /-- sum of the balances of `accts` in denom `d` -/
 def total (b : Bank) (accts : List Addr) (d : Denom) : Nat := (accts.map fun a => b.bal a d).sum
@@ -256,7 +271,7 @@ structure World where
 /-- One mint call (`Mint`, `MintTo`, `MintFor`, token-merge deposit, base `Mint`) by `sender`.
 `allowed` = every check C02 is silent about passed (environment witness). -/
 def mint (w : World) (sender : Addr) (isAdmin : Bool) (funds : List Coin) (allowed : Bool) : Except Err World :=
-  match w.bank.sendAll sender w.m.addr funds with
+  match w.bank.sendFunds sender w.m.addr funds with
   | none => .error .payment
   | some b1 =>
     if allowed = false then .error .other
